@@ -10,7 +10,7 @@ RULE = ('a hub daemon V with an honest bystander peer P1 and a second configured
         'two-field combinations) from the configured address and from an unconfigured one, protocol oddities (unknown exchange type, '
         'IKE_SA_INIT for an existing SPI, unsolicited responses, binary vendor IDs / identities, wrong-length IP identities), '
         'authentic-but-malformed protected messages built with the real keys of an established peer, kernel messages (truncated / '
-        'unknown / foreign ACQUIRE and EXPIRE), and sendto / netlink OSError injected at EVERY call index of base histories (netlink: at send time and when the socket of the request is opened, so that _get_socket of the repository runs); events whose handling raises delivered in the very turn in which a retransmission falls due (every blocking select() argument is validated like select.select does; SystemExit and a loop that spins on a refused select() count as terminated); PERSISTENT kernel refusals (every DELSA or every NEWSA fails with EPERM / EINVAL / ENOBUFS / ESRCH / OSError for the whole history, the peer then closes its IKE_SA) after which the hub must still retransmit a lost request to its other peer and serve it. Oracle per '
+        'unknown / foreign ACQUIRE and EXPIRE), and sendto / netlink OSError injected at EVERY call index of base histories (netlink: at send time and when the socket of the request is opened, so that _get_socket of the repository runs); authentic responses of an independent responder (valid AUTH) to the IKE_AUTH / CHILD_SA rekey / IKE_SA rekey requests carrying SPIs of 0-16 octets; events whose handling raises delivered in the very turn in which a retransmission falls due (every blocking select() argument is validated like select.select does; SystemExit and a loop that spins on a refused select() count as terminated); PERSISTENT kernel refusals (every DELSA or every NEWSA fails with EPERM / EINVAL / ENOBUFS / ESRCH / OSError for the whole history, the peer then closes its IKE_SA) after which the hub must still retransmit a lost request to its other peer and serve it. Oracle per '
         'step: the loop comes back to select (LoopExit), executed repository lines <= 4000 + 20*bytes + 40*S + 800*#IKE_SAs (S = SPI counts declared in DELETE headers), and '
         'afterwards the bystander still completes a handshake and a CHILD_SA rekey with mirror-image SADs. distinct = (phase, class, how the step ended).')
 ASSUMPTIONS = ['one event per loop iteration; the hostile party may spoof any source address; authentic-but-malformed messages come from a peer that holds the keys',
@@ -370,6 +370,92 @@ def run(ck):
                 ck.violation('timer-driven-service-dead:retransmission-never-sent-after-an-event-that-raised', {'hub': [(x.state.name, str(x.peer_addr)) for x in hub.ctl.ike_sas]}, sim.case)
             else:
                 ck.count('raising_event_while_timer_due.retransmitted')
+    # ---- authentic-but-malformed RESPONSES: the hub is the initiator, an independent responder with valid credentials answers IKE_AUTH, a CHILD_SA rekey
+    # or an IKE_SA rekey with SPIs of an impossible size; afterwards no closed IKE_SA may linger and the timers of the other peer's IKE_SA must run
+    from vf.ref import party
+    from vf.checks import c02
+    spi_cases = [('ike_auth', n_) for n_ in (0, 1, 3, 5, 8, 16)] + [('rekey_child', n_) for n_ in (0, 3, 5, 8)] + [('rekey_ike', n_) for n_ in (0, 4, 7, 9, 16)]
+    for ci_, (where, size) in enumerate(spi_cases):
+        n += 1
+        if not ck.mine(n):
+            continue
+        sim, hub, (p1, p2) = S.make_star(base + 33 + ci_, peers=2)
+        sim.case = {'authentic_malformed_response': where, 'spi_size': size}
+        died = []
+        sim.monitors.append(lambda s_, ep, rec: died.append(rec) if (rec.died and ep is hub) else None)
+        rng_ = ck.rng('spi-size', n)
+        pr = party.RefParty(P2A, HUB, rng_)
+        sim.acquire(hub, 1, dport=6800)
+        req = next((d.data for d in sim.net if d.dst == P2A), None)
+        sim.net.clear()
+        if req is None:
+            continue
+        sim.inject(hub, P2A, HUB, pr.respond_init(req))
+        areq = next((d.data for d in sim.net if d.dst == P2A), None)
+        sim.net.clear()
+        if areq is None:
+            continue
+        if where == 'ike_auth':
+            pr.child_spi = gen.rb(rng_, size)
+        sim.inject(hub, P2A, HUB, pr.respond_auth(areq, c02.ID_A[0], c02.ID_A[1], 2, pr.auth_psk(c02.PSK_A, *c02.ID_A)))
+        sim.net.clear()
+        hs = [x for x in hub.ctl.ike_sas if str(x.peer_addr) == P2A]
+        if where != 'ike_auth':
+            if not hs or hs[0].state != State.ESTABLISHED or not hs[0].child_sas:
+                ck.count('authentic_response.setup_failed')
+                continue
+            if where == 'rekey_child':
+                sim.expire(hub, bytes(hs[0].child_sas[0].inbound_spi), False, daddr=HUB)
+            else:
+                hs[0].rekey_ike_sa_at = sim.clock.t - 1
+                hub.step('tick')
+            creq = next((d.data for d in sim.net if d.dst == P2A), None)
+            sim.net.clear()
+            if creq is None:
+                continue
+            hdr_, inner_, _i = pr.open(creq)
+            rsa_ = next(x for x in inner_ if x['type'] == codec.SA)
+            prop = rsa_['proposals'][0]
+            chosen = {}
+            for t_ in prop['transforms']:
+                chosen.setdefault(t_['type'], t_)
+            pls_ = [{'type': codec.SA, 'critical': False, 'proposals': [{'num': prop['num'], 'proto': prop['proto'], 'spi': gen.rb(rng_, size), 'transforms': [chosen[k_] for k_ in sorted(chosen)]}]},
+                    {'type': codec.NONCE, 'critical': False, 'data': gen.rb(rng_, 32)}]
+            ke_ = next((x for x in inner_ if x['type'] == codec.KE), None)
+            if ke_ is not None:
+                from vf.ref import groups
+                pls_.append({'type': codec.KE, 'critical': False, 'group': ke_['group'], 'data': groups.dh_public(ke_['group'], rng_.getrandbits(200) | 1)})
+            for ty_ in (codec.TSI, codec.TSR):
+                ts_ = next((x for x in inner_ if x['type'] == ty_), None)
+                if ts_ is not None:
+                    pls_.append({'type': ty_, 'critical': False, 'selectors': [ts_['selectors'][-1]]})
+            if any(x['type'] == codec.NOTIFY and x.get('ntype') == 16391 for x in inner_):
+                pls_.append({'type': codec.NOTIFY, 'critical': False, 'proto': 0, 'spi': b'', 'ntype': 16391, 'data': b''})
+            sim.inject(hub, P2A, HUB, pr.seal(36, hdr_['mid'], pls_, True))
+            sim.net.clear()
+        ck.count('authentic_response.runs')
+        ck.seen('authentic_response.kinds', (where, size))
+        ck.nontrivial(('authentic-response', where, size))
+        # P1's IKE_SA comes AFTER the closed one in the table: its lost request must be retransmitted, and nothing closed may stay
+        sim.acquire(hub, 0, dport=6900)
+        first = [d.data for d in sim.net if d.dst == P1A]
+        sim.net.clear()
+        got = []
+        for _ in range(4):
+            sim.tick_all(1.1)
+            got += [d.data for d in sim.net if d.dst == P1A]
+            if got:
+                break
+        lingering = [x.state.name for x in hub.ctl.ike_sas if x.state == State.DELETED]
+        if died:
+            ck.violation(f'loop-terminated:{type(died[0].exc).__name__}:authentic-response-with-{size}-octet-spi:{where}', {'exc': repr(died[0].exc)[:160]}, sim.case)
+        elif lingering:
+            ck.violation(f'closed-ike-sa-lingers-in-the-table-and-every-loop-turn-fails:authentic-response-with-odd-spi-size:{where}',
+                         {'table': [(x.state.name, str(x.peer_addr)) for x in hub.ctl.ike_sas]}, sim.case)
+        elif not first or not got or got[0] != first[0]:
+            ck.violation(f'timer-driven-service-dead:after-an-authentic-response-with-odd-spi-size:{where}', {'table': [(x.state.name, str(x.peer_addr)) for x in hub.ctl.ike_sas]}, sim.case)
+        else:
+            ck.count('authentic_response.timer_service_alive')
     # ---- PERSISTENT kernel refusals: from the start of a history every request of one type fails (a one-shot fault heals on the next iteration, this does not).
     # Afterwards the hub must still give TIMER-driven service to its other peer: an unanswered request of its own is retransmitted, DPD probes start.
     pers = [(typ, fl) for typ in ('DELSA', 'NEWSA') for fl in (('errno', -1), ('errno', -22), ('errno', -105), ('errno', -3), ('oserror', 105))]
@@ -454,6 +540,7 @@ def verdict(ck):
     ck.floor('kernel oddities', sum(v for k, v in c.items() if k.startswith('hostile.kernel')), 100)
     ck.floor('sendto faults', c['faults.sendto'], 20)
     ck.floor('netlink faults', c['faults.netlink'], 10)
+    ck.floor('authentic responses with SPIs of an impossible size after which the timers still ran', c['authentic_response.timer_service_alive'], 10)
     ck.floor('failures to open the netlink socket of a request', c['faults.netlink-socket'], 10)
     ck.floor('events that raise while a retransmission is due, after which the retransmission came', c['raising_event_while_timer_due.retransmitted'], 8)
     ck.floor('persistent kernel refusal runs with live timer service', c['persistent.timer_service_alive'], 20)
